@@ -1,7 +1,7 @@
 """sm2 family: Stream (C25), Backup/Load (C24), StreamWriter (C26).
 specs/sm2/{Stream,Backup,StreamGen}.tla  -> harness/cmd/sm2stream
 specs/sm2/{StreamWriter,StreamWriterGen}.tla -> harness/cmd/sm2sw"""
-import json, os, random, subprocess, sys, time
+import json, os, random, re, subprocess, sys, time
 sys.path.insert(0, os.path.join(os.path.dirname(os.path.abspath(__file__)), "..", "tools"))
 import vlib
 from vlib import Inconclusive, log
@@ -42,6 +42,18 @@ def write_mc(d, name, extends, consts, spec, invariants=(), properties=(), const
             f.write("CONSTRAINT %s\n" % constraint)
 
 
+def final_zero_actions(res):
+    """Actions with zero count in the LAST coverage report of a TLC run (-coverage 1 also prints interim
+    reports every minute, in which late actions legitimately have count 0)."""
+    i = res.out.rfind("The coverage statistics at")
+    txt = res.out[i:] if i >= 0 else res.out
+    zero = []
+    for mm in re.finditer(r"<(\w+) line \d+, col \d+ to line \d+, col \d+ of module \w+>: (\d+):(\d+)", txt):
+        if mm.group(2) == "0" and mm.group(3) == "0":
+            zero.append(mm.group(1))
+    return zero
+
+
 # =========================================================================== Stream / Backup
 PER_PROC = 40
 STREAM_INV = ["TypeOK", "SendSerial", "EachKeyOnce", "OneSnapshot", "SnapshotAtStart", "SameReadTs"]
@@ -76,9 +88,11 @@ def mc_stream(c, name, consts, module="Stream", invariants=STREAM_INV, timeout=6
         if res.timeout or (not res.violation and not res.ok):
             raise Inconclusive("TLC failed on %s: %s" % (name, res.error_trace[:1500]))
         return res
+    if coverage:
+        res.coverage_zero = final_zero_actions(res)
     c.add_tlc(name, res)
     vlib.require_tlc_ok(res, module + "/" + name)
-    dead = [a for a in res.coverage_zero if a not in ("Init",)]
+    dead = [a for a in final_zero_actions(res) if a not in ("Init",)] if coverage else []
     if dead:
         raise Inconclusive("vacuous model checking run %s: actions never taken: %s" % (name, dead))
     return res
@@ -131,10 +145,17 @@ def pick_wsets(pr, rnd, n=3):
         by_range.setdefault(r, []).append(k)
     rs = sorted(by_range)
     out = []
+    # first: a key whose user key is a range boundary (the split is an internal key key||version: a
+    # newer version of that key sorts before the split) together with a key of another range
+    splits = [k for k in pr.get("splitKeys", []) if 1 <= k <= len(pr["rangeOf"])]
+    if splits and len(rs) >= 2:
+        sk = rnd.choice(splits)
+        other = rnd.choice([r for r in rs if r != pr["rangeOf"][sk - 1]])
+        out.append({sk, rnd.choice(by_range[other])})
     if len(rs) >= 2:
         pairs = [(a, b) for i, a in enumerate(rs) for b in rs[i + 1:]]
         rnd.shuffle(pairs)
-        for a, b in pairs[:max(1, n - 1)]:
+        for a, b in pairs[:max(1, n - 1 - len(out))]:
             out.append({rnd.choice(by_range[a]), rnd.choice(by_range[b])})
     if len(rs) >= 3 and n >= 3:
         three = rnd.sample(rs, 3)
@@ -287,8 +308,6 @@ def replay_stream(c, cases, pr, layout, numgo, prefix, mode, nvk, chosen, label,
             "send_calls": sum(r.get("sends", 0) for r in results),
             "wall_s": round(time.time() - t0, 1)}
     c.cov["engines"].append(stat)
-    if len(div) > max(2, len(results) // 50):
-        raise Inconclusive("%d of %d schedules could not be forced (%s): %s" % (len(div), len(results), label, div[0]["diverged"]))
     per_sig = {}
     for r in bad:
         per_sig[r["sig"]] = per_sig.get(r["sig"], 0) + 1
@@ -309,6 +328,10 @@ def replay_stream(c, cases, pr, layout, numgo, prefix, mode, nvk, chosen, label,
                      "chosen": sorted(chosen) if chosen is not None else None, "rangeOf": pr["rangeOf"],
                      "case": case, "replay_cmd": "sm2stream"})
     stat["signatures"] = per_sig
+    # schedules that could not be forced give no snapshot verdict (their output is still checked for
+    # duplicates / unknown keys / payload above); too many of them means the machinery is off
+    if len(div) > max(2, len(results) // 50) and not c.violations:
+        raise Inconclusive("%d of %d schedules could not be forced (%s): %s" % (len(div), len(results), label, div[0]["diverged"]))
     return results
 
 
@@ -329,10 +352,12 @@ def mc_sw(c, name, consts, timeout=600, workers=None, coverage=False):
     d = vlib.stage_specs(["sm2"])
     write_mc(d, "SWMC", "StreamWriter", consts, "Spec", SW_INV)
     res = vlib.run_tlc(d, "SWMC", "SWMC.cfg", timeout=timeout, workers=workers, coverage=coverage)
+    if coverage:
+        res.coverage_zero = final_zero_actions(res)
     c.add_tlc(name, res)
     vlib.require_tlc_ok(res, "StreamWriter/" + name)
-    if coverage and res.coverage_zero:
-        raise Inconclusive("vacuous model checking run %s: actions never taken: %s" % (name, res.coverage_zero))
+    if coverage and final_zero_actions(res):
+        raise Inconclusive("vacuous model checking run %s: actions never taken: %s" % (name, final_zero_actions(res)))
     return res
 
 
@@ -509,3 +534,31 @@ def replay_sw(c, cases, levels, config, label, nproc=None, timeout=900):
                     {"levels": levels, "config": config, "variant": r["variant"], "case": case, "replay_cmd": "sm2sw"})
     stat["signatures"] = per_sig
     return results
+
+
+# =========================================================================== --replay <file>
+def replay_file(c):
+    """bin/check Cxx --replay evidence/replays/Cxx/<h>.json : re-executes the stored case against the
+    current tree and reports the same kind of verdict."""
+    obj = json.load(open(c.replay))
+    case = obj["case"]
+    if case.get("replay_cmd") == "sm2sw":
+        cs = case["case"]
+        pad = [{"steps": [], "db": [], "may": [], "nextTs": 1}] * case.get("variant", 0)
+        res = replay_sw(c, pad + [cs], case["levels"], case["config"], "replay", nproc=1)
+        c.add_cases(1, [short_sw(cs)], traces=1)
+        c.sample(short_sw(cs))
+    elif case.get("replay_cmd") == "sm2stream":
+        pr = {"rangeOf": case["rangeOf"]}
+        chosen = set(case["chosen"]) if case.get("chosen") else None
+        replay_stream(c, [case["case"]], pr, case["layout"], case["numgo"], case["prefix"], case["mode"], case["nvk"],
+                      chosen, "replay", nproc=1)
+        c.add_cases(1, [short_schedule(case["case"])], traces=1)
+        c.sample(short_schedule(case["case"]))
+    elif case.get("replay_cmd") == "sm2stream -probe":
+        probe_stream(c, case["layout"], case["numgo"], case["prefix"])
+        c.add_cases(1, ["probe"], traces=1)
+        c.sample("quiescent run on layout %s" % case["layout"])
+    else:
+        raise Inconclusive("unknown replay file format: %s" % c.replay)
+    c.cov["rule"] = "single stored case re-executed"
